@@ -1,4 +1,5 @@
 import CifModel.Lemmas.BufScanTok
+import CifModel.Lemmas.BufScanOps
 import CifModel.Lemmas.FillRun
 /-
   Property C08, buffer level — the scanner of parser.c as code that works on `scanner->buffer`, `text_start`, `tvalue_start`,
@@ -80,6 +81,58 @@ theorem C08_bufscan_offsets_ordered (dia : Dialect) (mf size : Nat) (pol : Polic
       r.textStart ≤ r.tvalueStart ∧ r.tvalueStart + r.tok.text.length ≤ r.next ∧ r.next ≤ r.limit ∧ r.limit ≤ r.size :=
   tokensLoopB_ordered dia mf pol _ _ _ [] [] (init_abs mf size chunks hmf hsize hne) (fun _ h => by simp at h)
 
+/-- **C08, TRIM_TOKEN at buffer level** (the push-back parse_table performs on an unquoted value that begins with or contains a
+    colon): on a pending whitespace-delimited token (value = whole token text, as next_token leaves a VALUE — `TokShape`),
+    `TRIM_TOKEN(scanner, n); ttype = ty` keeps the first `n` units as the token value, puts the other units back in front of the rest
+    of the input, takes their characters (`u_countChar32`) out of the column — exactly group gJ's `Parser.trimTok` on the list-level
+    parser state — and leaves a good state, whatever refills and buffer moves happened while the token was scanned. -/
+theorem C08_bufscan_trim_token (mf : Nat) (s : BS) (n : Nat) (ty : TokType) (ps : Model.Parser.PS) (t : Tok)
+    (g : Good mf s) (hw : s.sb.tvalueOffset = 0 ∧ s.sb.tvalueStart + s.tvlen = s.sb.next) (hn : n ≤ s.tvlen)
+    (htok : s.tok = t) (hrem : s.remaining = ps.scan.rest) (hline : s.line = ps.scan.line) (hcol : s.col = ps.scan.col) :
+    let q := Model.Parser.trimTok ps t n ty
+    Good mf (trimTokenB s n ty) ∧ (trimTokenB s n ty).ttype = q.1.ty ∧ (trimTokenB s n ty).value = q.1.text ∧
+    (trimTokenB s n ty).remaining = q.2.scan.rest ∧ (trimTokenB s n ty).line = q.2.scan.line ∧
+    (trimTokenB s n ty).col = q.2.scan.col ∧ (trimTokenB s n ty).ttype = q.2.scan.lastType := by
+  have sp := trimTokenB_spec mf s n ty g hw hn
+  have htx : s.value = t.text := congrArg Tok.text htok
+  refine ⟨sp.1, sp.2.2.2.2.2.1, ?_, ?_, ?_, ?_, sp.2.2.2.2.2.1⟩
+  · rw [sp.2.1, htx]; rfl
+  · rw [sp.2.2.1, htx, hrem]; rfl
+  · rw [sp.2.2.2.2.1, hline]; rfl
+  · rw [sp.2.2.2.1, htx, hcol]; rfl
+
+/-- **C08, colon push-back at buffer level** (parse_item / parse_list / parse_table on a KEY / TKEY): `next_char -= 1; column -= 1;
+    ttype = alt` on the token next_token left (the unit before `next_char` is the colon, outside the value — `TokShape`) is gJ's
+    `Parser.pushColon`: same value, the colon back in front of the rest of the input, column one less. -/
+theorem C08_bufscan_push_colon (mf : Nat) (s : BS) (alt : TokType) (ps : Model.Parser.PS) (t : Tok)
+    (g : Good mf s) (hk : s.sb.tvalueStart + s.tvlen < s.sb.next ∧ s.get (s.sb.next - 1) = colon)
+    (htok : s.tok = t) (hrem : s.remaining = ps.scan.rest) (hline : s.line = ps.scan.line) (hcol : s.col = ps.scan.col) :
+    let q := Model.Parser.pushColon ps t alt
+    Good mf (pushColonB s alt) ∧ (pushColonB s alt).ttype = q.1.ty ∧ (pushColonB s alt).value = q.1.text ∧
+    (pushColonB s alt).remaining = q.2.scan.rest ∧ (pushColonB s alt).line = q.2.scan.line ∧
+    (pushColonB s alt).col = q.2.scan.col ∧ (pushColonB s alt).ttype = q.2.scan.lastType := by
+  have sp := pushColonB_spec mf s alt g hk
+  have htx : s.value = t.text := congrArg Tok.text htok
+  refine ⟨sp.1, sp.2.2.2.2.2.1, ?_, ?_, ?_, ?_, sp.2.2.2.2.2.1⟩
+  · rw [sp.2.1, htx]; rfl
+  · rw [sp.2.2.1, hrem]; rfl
+  · rw [sp.2.2.2.2.1, hline]; rfl
+  · rw [sp.2.2.2.1, hcol]; rfl
+
+/-- **C08, token streams with push-back**: the run in which every VALUE token longer than one unit is trimmed to its first unit
+    (TRIM_TOKEN(scanner, 1); ttype = KEY) and / or the colon of every KEY / TKEY is pushed back before CONSUME_TOKEN — so that
+    pushed-back units are scanned again, across refills and buffer moves — yields at buffer level, for every chunking, buffer size,
+    policy and number of iterations, the tokens, return value and reports of the same run over the list-level lexer with gJ's
+    `trimTok` / `pushColon`. -/
+theorem C08_bufscan_pushback_streams (dia : Dialect) (mf size : Nat) (pol : Policy) (ops : Ops) (fuel : Nat) (chunks : List Str)
+    (hmf : 1 ≤ mf) (hsize : 2 ≤ size) (hne : ∀ c ∈ chunks, c ≠ []) :
+    ((tokensLoopOpsB dia mf pol ops fuel (BS.init size ⟨chunks⟩) [] []).1.map (·.tok),
+     (tokensLoopOpsB dia mf pol ops fuel (BS.init size ⟨chunks⟩) [] []).2)
+      = ((tokensLoopOps dia pol ops fuel (Scan.init (normalizeEOL chunks.flatten)) [] []).1,
+         (tokensLoopOps dia pol ops fuel (Scan.init (normalizeEOL chunks.flatten)) [] []).2) := by
+  have h := tokensLoopOpsB_sim dia mf pol ops fuel _ _ [] [] [] (init_abs mf size chunks hmf hsize hne) rfl
+  rw [h.1, h.2]
+
 -- non-vacuity -------------------------------------------------------------------------------------------------------
 -- a quoted string whose CR LF is split across two fills, then a text field closed by CR LF `;`, scanned through a 2-unit buffer
 -- (every token outgrows the buffer: doubling in the middle of tokens); the buffer-level token stream is computed and is the
@@ -99,5 +152,16 @@ example : Good 4 ⟨⟨[97, 98, 99, 100], 4, 4, 4, 1, 2⟩, 0, 1, 3, .end_, ⟨f
   intro c hc
   simp only [List.mem_cons, List.not_mem_nil, or_false] at hc
   rcases hc with h | h <;> simp [h]
+
+-- the hypotheses of C08_bufscan_trim_token / C08_bufscan_push_colon on concrete pending tokens: the VALUE `a:b` in a 4-unit buffer
+-- (value = whole token text), and the KEY `'k':` (the unit before next_char is the colon, outside the value)
+example :
+    let s : BS := ⟨⟨[97, 58, 98, 32], 4, 4, 3, 0, 0⟩, 3, 1, 3, .value, ⟨false, true⟩, ⟨[]⟩⟩
+    s.sb.Inv ∧ (s.sb.tvalueOffset = 0 ∧ s.sb.tvalueStart + s.tvlen = s.sb.next) ∧ 1 ≤ s.tvlen ∧ s.value = [97, 58, 98] ∧
+    (trimTokenB s 1 .key).sb.next = 1 ∧ (trimTokenB s 1 .key).tvlen = 1 := by decide
+example :
+    let s : BS := ⟨⟨[39, 107, 39, 58], 4, 4, 4, 0, 1⟩, 1, 1, 4, .key, ⟨false, true⟩, ⟨[]⟩⟩
+    s.sb.Inv ∧ (s.sb.tvalueStart + s.tvlen < s.sb.next ∧ s.get (s.sb.next - 1) = colon) ∧ s.value = [107] ∧
+    (pushColonB s .qvalue).sb.next = 3 ∧ (pushColonB s .qvalue).col = 3 := by decide
 
 end CifModel
